@@ -1,6 +1,6 @@
 (* C12 -- within a builder the most recent instruction for a target wins. *)
 From Coq Require Import List ZArith Bool Arith Lia.
-From Goom Require Import Model.Stub Model.MockerLevel Proofs.MockerLevelProofs.
+From Goom Require Import Model.Stub Model.MockerLevel Proofs.MockerLevelProofs Proofs.MockerHistory.
 Import ListNotations.
 Open Scope Z_scope.
 
@@ -48,6 +48,38 @@ Theorem C12_pkg_applies_to_next_lookup_only : forall s b t p,
   (forall b', b' <> b -> mpkg (m_lookup s b t) b' = mpkg s b') /\
   mpkg (mstep 0 s (MVarLookup b)) = mpkg s.
 Proof. exact pkg_applies_to_next_lookup_only. Qed.
+
+(* THE WHOLE-HISTORY STATEMENT. For every history of lookups, Apply, Return, When..Return, Cancel, Reset, Pkg and calls,
+   in any order and of any length, over any number of builders, targets and handles, that respects the property's domain
+   (each target is used through one builder -- owner -- and an instruction or Cancel goes through a handle of the
+   target's CURRENT mocker; a handle whose mocker was cancelled and then superseded by a newer lookup is stale), a call
+   of any target t behaves according to the most recent instruction for t as computed by the last-writer-wins
+   reference ref_step: the original after Cancel/Reset or when nothing was said, the callback of the latest Apply, or
+   the answer of the live stub configuration of the latest Return/When (continued, not discarded, by repeated lookups). *)
+Theorem C12_last_instruction_wins : forall ntargets owner xs t a,
+  disciplined ntargets owner (minit, fun _ => LNone) xs ->
+  let s := fst (hrun ntargets (minit, fun _ => LNone) xs) in
+  match snd (hrun ntargets (minit, fun _ => LNone) xs) t with
+  | LNone => snd (probe s t a) = POriginal
+  | LApply k => snd (probe s t a) = PCallback k
+  | LStub id => exists m w, nth_error (mks s) id = Some m /\ k_target m = t /\ k_when m = Some w /\
+                            snd (probe s t a) = PStub (snd (invoke w [a]))
+  end.
+Proof. exact last_instruction_wins. Qed.
+Print Assumptions C12_last_instruction_wins.
+
+(* the hypothesis is satisfiable by a history that exercises continuation, supersession in both directions, cancel,
+   a fresh mocker after cancel, reset and interleaved calls (two targets, two builders) *)
+Example C12_history_nonvacuous :
+  let xs := [HOp (MLookup 0 0); HOp (MWhen 0 1 11); HProbe 0 1; HOp (MApply 0 3); HOp (MReturn 0 33); HOp (MLookup 0 0);
+             HOp (MReturn 1 34); HProbe 0 0; HProbe 0 0; HOp (MLookup 1 1); HOp (MApply 2 7); HOp (MCancel 1);
+             HOp (MLookup 0 0); HOp (MReturn 3 44); HOp (MReset 1); HProbe 1 2] in
+  disciplined 2 (fun t => t) (minit, fun _ => LNone) xs /\
+  snd (hrun 2 (minit, fun _ => LNone) xs) 0%nat = LStub 2 /\ snd (hrun 2 (minit, fun _ => LNone) xs) 1%nat = LNone.
+Proof.
+  split; [|split; vm_compute; reflexivity].
+  cbn. repeat (split; [first [exact I | lia | (eexists; eexists; repeat split; reflexivity)]|]). exact I.
+Qed.
 
 (* non-vacuity / the history of finding F12: When; Apply; Return -- the Return must win *)
 Example C12_when_apply_return :
